@@ -13,7 +13,7 @@ from pbt.props import c08
 ID = "C11"
 RULE = ("A dataset of n sorted entries on a genome of 1..4 chromosomes and a set of cut positions that splits it into consecutive chunks: every one "
         "of the 2^(n-1) chunkings for n <= N (exhaustive), sampled cut sets for n up to 200. Computations: bnp.mean, bnp.bincount, bnp.histogram "
-        "(explicit edges, or bin count with explicit range), count_kmers, groupby on the sorted chromosome key, chunk_entries(stream, m), and "
+        "(explicit edges, or bin count with explicit range), count_kmers, groupby on the sorted chromosome key (as an identifier column and as a text-typed ragged column, where keys such as chr1/chr10 are prefixes of each other), chunk_entries(stream, m), and "
         "per-chromosome pipelines built from the stream with Genome.get_intervals and evaluated with bnp.compute: pileup records, mask sum, "
         "pileup histogram, pileup sum, and the column mean of the pileup under equal-length windows. Oracle: the same computation on the "
         "concatenated table through the in-memory path and an independent Python computation; floats within 1e-9 relative; values compared "
@@ -25,11 +25,11 @@ ASSUMPTIONS = [
     "Entries of one chromosome are contiguous and chromosomes appear in genome order (the streaming precondition; C12 covers its violation).",
 ]
 REQUIRED_CLASSES = ["cut-inside-group", "single-entry-chunk", "short-last-chunk", "one-chunk", "empty-chromosome", "trailing-empty-chromosome",
-                    "mean", "bincount", "histogram", "count_kmers", "groupby", "chunk_entries", "pileup", "mask-sum", "pileup-histogram", "window-mean"]
+                    "mean", "bincount", "histogram", "count_kmers", "groupby", "groupby-str", "chunk_entries", "pileup", "mask-sum", "pileup-histogram", "window-mean"]
 BOUNDS = {"quick": "all 128 chunkings of n = 8 entries x 12 computations x 10 datasets; 1000 sampled", "thorough": "all chunkings for n = 10 on 12 datasets; 5000 sampled (n up to 200)"}
 BUDGET_S = {"quick": 200, "thorough": 1500}
 
-COMPS = ["mean", "bincount", "histogram", "histogram-range", "count_kmers", "groupby", "chunk_entries", "pileup", "mask-sum", "pileup-histogram",
+COMPS = ["mean", "bincount", "histogram", "histogram-range", "count_kmers", "groupby", "groupby-str", "chunk_entries", "pileup", "mask-sum", "pileup-histogram",
          "pileup-sum", "window-mean"]
 
 
@@ -126,6 +126,23 @@ def check(case, stats=None):
             mem = [(name, list(zip(g.start.tolist(), g.stop.tolist()))) for name, g in bnp.groupby(table, "chromosome")]
             if got != want or mem != want:
                 return [Failure("C11:groupby", {"streamed": got, "expected": want, "in_memory": mem})]
+        elif comp == "groupby-str":
+            # the same group-by on a text-typed (ragged) key column; chunks are built fresh from lists, as a file reader hands them out
+            from bionumpy.bnpdataclass import bnpdataclass
+
+            @bnpdataclass
+            class KeyValue:
+                key: str
+                value: int
+            keys = [r[0] + case.get("key_suffix", "") for r in rows]
+            vals = [r[1] * 100 + r[2] for r in rows]
+            pts = [0] + sorted(set(c for c in case["cuts"] if 0 < c < len(rows))) + [len(rows)]
+            kv_chunks = [KeyValue(keys[a:b], np.array(vals[a:b], dtype=int)) for a, b in zip(pts[:-1], pts[1:])]
+            got = [(str(name), g.value.tolist()) for name, g in bnp.groupby(NpDataclassStream(iter(kv_chunks), dataclass=KeyValue), "key")]
+            want = [(k_, [v for _, v in grp]) for k_, grp in itertools.groupby(zip(keys, vals), key=lambda r: r[0])]
+            mem = [(str(name), g.value.tolist()) for name, g in bnp.groupby(KeyValue(keys, np.array(vals, dtype=int)), "key")]
+            if got != want or mem != want:
+                return [Failure("C11:groupby-text-key", {"streamed": got, "expected": want, "in_memory": mem})]
         elif comp == "chunk_entries":
             m = case["m"]
             out = list(chunk_entries(stream(), m))
